@@ -233,13 +233,13 @@ def table(t):
 def termjson(t):
     k = t[0]
     if k == 't':
-        return ['t', len(t[1]), TID(t[1])]
+        return ['t', len(t[1]), TID(t[1]), len(t[1].rstrip())]
     if k == 'hl':
         return ['hl']
     if k == 'nil':
         return ['nil']
     if k == 'line':
-        return ['fc', ['hl'], ['t', 1, TID(' ')], 0]
+        return ['fc', ['hl'], ['t', 1, TID(' '), 0], 0]
     if k == 'soft':
         return ['fc', ['hl'], ['nil'], 0]
     if k in ('grp', 'ab', 'align'):
